@@ -44,6 +44,9 @@ def harnesses(tier, seed):
                 cfgs = [(4, 2, 1), (4, 2, 2)] if ty not in heavy_ty else [(4, 2, 1), (3, 2, 2)]
                 if term in ("reduce_xor", "reduce_add") and ty not in heavy_ty:
                     cfgs += [(5, 3, 1), (5, 2, 2), (5, 2, 1)]
+                if src == "vec":
+                    # chunked pulls from the owning Vec source (take_slice + NoLeakIter) cost ~17 min per query
+                    cfgs = [cf for cf in cfgs if cf[2] == 1] + ([(3, 2, 2)] if term == "reduce_xor" else [])
                 for (n, t, c) in cfgs:
                     hs.append(h(term, ty, src, n, t, c))
             if ty not in heavy_ty:
